@@ -64,7 +64,8 @@ package webtransport
 //@   ensures [C15.sticky]  old(c.readErr) != nil ==> err == old(c.readErr) && c.readErr == old(c.readErr) && r == nil
 //@   ensures [C15.stored]  err != nil ==> c.readErr == err
 //@   ensures [C15.kinds]   err == nil ==> (messageType == TextMessage || messageType == BinaryMessage) && r != nil
-//@   ensures [C15.rdrkind] err == nil ==> typeis(r, *messageReader)
+//@   ensures [C15.rdrkind] err == nil ==> typeis(r, *messageReader) && unbox(r, *messageReader) != nil && unbox(r, *messageReader).c == c
+//@   ensures [C15.errcount] (err == nil ==> c.readErrCount == old(c.readErrCount)) && (err != nil ==> c.readErrCount == old(c.readErrCount) + 1)
 //@   ensures [C15.limit2,C10.wt2]  err == nil ==> (c.readLimit <= 0 || c.readLength <= c.readLimit)
 //@   ensures [C15.rem2]    c.readRemaining >= 0
 //@   ensures [C15.rdr]     c.reader == nil || typeis(c.reader, *messageReader)
@@ -206,9 +207,10 @@ package webtransport
 
 //@ func (*Conn).beginMessage(mw, messageType)
 //@   props C13, C09
-//@   requires c != nil && c.stream != nil && mw != nil && !c.isWriting && c.writeBufSize > 9 && c.writeBufSize <= 0x1000009
+//@   requires c != nil && c.stream != nil && mw != nil && !c.isWriting
 //@   requires c.writer != nil ==> typeis(c.writer, *messageWriter) && wOK(unbox(c.writer, *messageWriter)) && unbox(c.writer, *messageWriter).c == c && unbox(c.writer, *messageWriter) != mw
 //@   requires c.writeBuf == nil ==> c.writePool != nil
+//@   requires c.writePool != nil ==> c.writeBufSize > 9 && c.writeBufSize <= 0x1000009     // the size matters only where a buffer may have to be made
 //@   requires c.writeBuf != nil ==> len(c.writeBuf) > 9
 //@   modifies c.writer, c.writeBuf, c.isWriting, c.writeErr, c.stream.$writes, Mem(c.writeBuf)[0:9], mw.c, mw.frameType, mw.pos
 //@   modifies unbox(c.writer, *messageWriter).pos, unbox(c.writer, *messageWriter).frameType, unbox(c.writer, *messageWriter).err if c.writer != nil
@@ -220,7 +222,7 @@ package webtransport
 
 //@ func (*Conn).NextWriter(messageType)
 //@   props C13, C09
-//@   requires c != nil && c.stream != nil && !c.isWriting && c.writeBufSize > 9 && c.writeBufSize <= 0x1000009 && c.writePool == nil
+//@   requires c != nil && c.stream != nil && !c.isWriting && c.writePool == nil
 //@   requires c.writer != nil ==> typeis(c.writer, *messageWriter) && wOK(unbox(c.writer, *messageWriter)) && unbox(c.writer, *messageWriter).c == c
 //@   requires c.writeBuf == nil ==> c.writePool != nil
 //@   requires c.writeBuf != nil ==> len(c.writeBuf) > 9
@@ -235,7 +237,7 @@ package webtransport
 
 //@ func (*Conn).WriteMessage(messageType, data)
 //@   props C13, C09
-//@   requires c != nil && c.stream != nil && !c.isWriting && c.writeBufSize > 9 && c.writeBufSize <= 0x1000009 && c.writer == nil && c.writePool == nil
+//@   requires c != nil && c.stream != nil && !c.isWriting && c.writer == nil && c.writePool == nil
 //@   requires c.writeBuf == nil ==> c.writePool != nil
 //@   requires c.writeBuf != nil ==> len(c.writeBuf) > 9
 //@   requires backing(data) != backing(c.writeBuf) || c.writeBuf == nil
@@ -248,16 +250,40 @@ package webtransport
 //@     assert [C13.wmhead]  forall k int :: 0 <= k && k < $w.pos - 9 ==> c.writeBuf[9 + k] == old(data[k])
 //@     assert [C13.wmtail]  backing($extra) == backing(old(data)) && off($extra) == off(old(data)) + ($w.pos - 9)
 
-// ---- prepared messages: prepared.go builds the wire bytes once per option set with sync.Once on a fake connection that
-// runs WriteMessage (proved above); the caching layer itself is outside the subset and summarised here
+// ---- prepared messages: prepared.go builds the wire bytes once per option set (sync.Once) on a fake connection that
+// runs WriteMessage (proved above). Under contract: the fake connection has the option set of the connection that asks
+// (so a server connection gets the single-frame fast path) and the standard buffer; the prepared bytes are handed to the
+// stream in one write of the message's kind. The Once cache itself and bytes.Buffer are trusted.
 //@ func NewPreparedMessage(messageType, data)
-//@   trusted "prepared.go (sync.Once cache around WriteMessage on a fake connection) is outside the subset"
+//@   trusted "builds the plain server frame through PreparedMessage.frame (under contract) and re-slices the cached bytes; bytes.Buffer contents are outside the model"
 //@   fresh
-//@   ensures result1 == nil ==> result0 != nil
+//@   ensures result1 == nil ==> result0 != nil && result0.frames != nil
+//@   ensures result1 == nil ==> forall k prepareKey :: maphas(result0.frames, k) ==> mapval(result0.frames, k) != nil
+//@ func (*PreparedMessage).frame(key)
+//@   props C13, C14
+//@   requires pm != nil && pm.frames != nil
+//@   requires forall k prepareKey :: maphas(pm.frames, k) ==> mapval(pm.frames, k) != nil
+//@   modifies MapOf(pm.frames)
+//@   ensures [C13.prep.kind,C14.prep.kind] result0 == old(pm.messageType)
+//@   ensures [C13.prep.cache] forall k prepareKey :: maphas(pm.frames, k) ==> mapval(pm.frames, k) != nil
+//@ func (*PreparedMessage).frame$1()
+//@   props C13, C14
+//@   requires pm != nil && frame != nil && backing(pm.data) != nil
+//@   modifies *
+//@   callsite (*Conn).WriteMessage#1
+//@     assert [C14.prep.options,C13.prep.options] $c.isServer == key.isServer && len($c.writeBuf) == defaultWriteBufferSize + maxFrameHeaderSize && $c.stream != nil
+//@     assert [C14.prep.message,C13.prep.message] $messageType == pm.messageType && $data == pm.data
 //@ func (*Conn).WritePreparedMessage(pm)
-//@   trusted "prepared.go (sync.Once cache around WriteMessage on a fake connection) is outside the subset"
-//@   requires c != nil && pm != nil
-//@   modifies c.isWriting, c.writeErr
+//@   props C13, C14
+//@   requires c != nil && pm != nil && pm.frames != nil
+//@   assumes c.stream != nil && !c.isWriting     // single writer on an open connection: the isWriting panic is the documented guard against concurrent writers
+//@   requires forall k prepareKey :: maphas(pm.frames, k) ==> mapval(pm.frames, k) != nil    // the cache holds frames, never nil entries (frame() only stores fresh ones)
+//@   modifies c.isWriting, c.writeErr, c.stream.$writes, MapOf(pm.frames)
+//@   ensures [C13.prep.one] result == nil ==> calls((*Conn).write) == 1
+//@   callsite (*PreparedMessage).frame#1
+//@     assert [C14.prep.side,C13.prep.side] $key.isServer == c.isServer
+//@   callsite (*Conn).write#1
+//@     assert [C13.prep.bytes,C14.prep.bytes] $frameType == ret((*PreparedMessage).frame, 1, 0) && $buf0 == ret((*PreparedMessage).frame, 1, 1) && len($buf1) == 0 && ret((*PreparedMessage).frame, 1, 2) == nil
 
 // ReadMessage: the whole message of the frame NextReader yields, read to its end (not whatever one read call returns)
 //@ func (*Conn).ReadMessage()
